@@ -1,6 +1,6 @@
 # C10 — the sequencer's batch queue is a durable FIFO with exactly-once delivery
 _TB = [
-    "Coq 8.16.1 kernel (coqc) incl. vm_compute for Examples, the _refuted witnesses and case evaluation; no native_compute",
+    "Coq 8.16.1 kernel (coqc) incl. vm_compute for Examples and case evaluation; no native_compute",
     "hand-written Gallina model; tie to /repo = Go harness (-tags verif) running the real code on generated histories + vm_compute evaluation of the model on the same histories (Check.QueueCheck.mismatches = [])",
     "Go harness (generators, recording datastore, projections, oracle, shrinker) and bin/check",
 ]
@@ -10,10 +10,11 @@ ENTRY = {
         "coq_files": ["Model/Queue.v", "Proofs/QueueProofs.v", "Check/QueueCheck.v", "Props/C10.v"],
         "n_quick": 400, "n_thorough": 16000, "shards_thorough": 16,
         "trusted_base": _TB + [
-            "datastore contract: a returned Put/Delete is durable and atomic; badger iterates a prefix in key order (the harness runs the real badger in-memory store, so a different order would show as a mismatch)",
-            "SHA-256 collision freedom, used as: the datastore key is an injective function of the batch contents (hash_keyedb; checked per case on 48-bit key prefixes)",
-            "modelled, not verified: sequencers/single/queue.go (AddBatch, Next, Load), sequencer.go (SubmitBatchTxs, GetNextBatch, NewSequencer[WithQueueSize]); batches compared as pool ids of their transaction lists, keys as the first 48 bits of the real key; protobuf encoding of the records is C12's subject",
+            "datastore contract: a returned Put/Delete is durable and atomic; a query with OrderByKey returns the prefix in key order (the harness runs the real badger in-memory store, so a different order would show as a mismatch)",
+            "modelled, not verified: sequencers/single/queue.go (batchKey, AddBatch, Next, Load), sequencer.go (SubmitBatchTxs, GetNextBatch, NewSequencer[WithQueueSize]); batches compared as pool ids of their transaction lists, record keys as their sequence number (the harness additionally checks that each key's suffix is the hash of the stored batch); protobuf encoding of the records is C12's subject",
             "concurrent submitters: the reduction of concurrent calls to a sequential history (BatchQueue.mu) is trusted, not proved; it is exercised by the harness's concurrent cases (oracle only)",
+            "stores written before the repair (bare-hash keys): not in the model (it starts from an empty store); exercised by the harness's legacy cases (oracle only)",
+            "uint64 wrap-around of the sequence counter is not modelled (the model's counter is unbounded)",
         ],
         "assumptions": [
             "process-death crash model: a crash loses whole datastore writes, never part of one; each queue operation performs at most one write (checked against the recorded write log on every case)",
@@ -21,8 +22,8 @@ ENTRY = {
             "the queue bound is the same before and after a restart",
         ],
         "design_ref": "DESIGN.md 3 (C10), 4 (F11)",
-        "technique": "Coq proof (invariant + induction over histories; refinement of a FIFO specification under a decidable guard; kernel-checked counterexamples to the unguarded statement) + differential correspondence with the real single.Sequencer/BatchQueue on badger in-memory under a recording datastore + independent Go oracle",
-        "level_text": "Machine-checked proof (Coq 8.16.1, every theorem closed under the global context) about an executable model of the single sequencer's batch queue, over ALL histories of submit / next / restart / crash-inside-an-operation (any bound, foreign chain ids, empty submissions, equal contents). The property AS WORDED IS REFUTED for the code as it is: C10_fifo_equal_batches_refuted and C10_fifo_reload_order_refuted are kernel-checked counterexamples (two pending batches with equal contents share one datastore record and one is lost over a restart; a restart reloads pending batches in content-hash order, not acceptance order); both are reproduced on the real code by the harness on every run and listed as known findings (DESIGN F11, confirmed). PARTIAL: C10_fifo_partial proves that the model refines the FIFO specification (same results, in-memory queue = pending batches in acceptance order, datastore = exactly the pending batches) on every history satisfying the decidable guard fifo_guard = no batch is accepted while one with equal contents is pending AND at every restart/crash the pending batches' keys are increasing in acceptance order (in particular: at most one pending batch); C10_fifo_monotone_keys_partial proves the same for every history whose keys grow with each submission (the shape a repair must have; for today's code only histories whose hashes happen to increase). FULL sub-claims, no guard: C10_bound_full (in-memory queue and durable records never exceed a positive bound), C10_rejected_no_trace_full and C10_empty_submission_no_trace_full (foreign chain id / queue full / empty submission: state unchanged, no datastore write). C10_spec_is_exactly_once_fifo shows that the specification used means 'accepted = handed out ++ pending' (exactly once, in order). ONLY TESTED, not proved: that the model is the code (differential check: results, final datastore image and write log of the real Sequencer compared with the model by vm_compute on every generated history, including those inside the known findings); concurrent submitters (real goroutines against the real queue, oracle only: nothing lost or duplicated, per-submitter order kept).",
-        "level_note": "Trusted: Coq kernel + vm_compute; the hand-written model is tied to the code only by the differential check (360 sequential histories + 40 concurrent runs quick / 16000 thorough); datastore contract (durable single Put/Delete, key-ordered iteration of badger); SHA-256 injectivity on the batches in play; batches compared as pool ids, keys as 48-bit prefixes; mutex linearisation of concurrent calls trusted. The guard of the _partial theorem excludes about 45% of the generated histories (those with equal pending batches or an out-of-hash-order restart).",
+        "technique": "Coq proof (invariant + induction over histories: refinement of a FIFO specification, instantiating a guarded refinement of a key-scheme-generic queue core) + differential correspondence with the real single.Sequencer/BatchQueue on badger in-memory under a recording datastore + independent Go oracle",
+        "level_text": "Machine-checked proof (Coq 8.16.1, every theorem closed under the global context) about an executable model of the single sequencer's batch queue AS REPAIRED (fix: sequence-number keys, fixes/C10-content-hash-keys.diff, recorded as fixed in findings/C10.entries.json). FULL: C10_fifo_full proves, for ALL histories of submit / next / restart / crash inside an operation at every write boundary (any bound, identical contents, empty submissions, foreign chain ids), that every result equals the result of a plain FIFO (accepted = enqueued at the back, next = the oldest; restarts and crashes change nothing except that a crashed operation whose write survived counts as done), that the in-memory queue is exactly the pending batches in acceptance order and that the datastore holds exactly the pending batches in acceptance order; C10_spec_is_exactly_once_fifo shows that this specification means 'accepted = handed out ++ pending' (exactly once, in order, nothing reappears); C10_bound_full (in-memory queue and durable records never exceed a positive bound); C10_rejected_no_trace_full and C10_empty_submission_no_trace_full (foreign chain id / queue full / empty submission: state incl. sequence counter unchanged, no datastore write). The two defects of the pinned tree (equal pending batches shared one record; reload in hash order) are kept as kernel-checked Examples before_the_repair_* and their witnesses are replayed on every run and must pass. ONLY TESTED, not proved: that the model is the code (differential check: results, final datastore image and write log of the real Sequencer compared with the model by vm_compute on every generated history); concurrent submitters (real goroutines against the real queue, oracle only: nothing lost or duplicated, per-submitter order kept); stores that still hold records under the pre-repair keys (oracle only: handed out first, exactly once, deleted).",
+        "level_note": "Trusted: Coq kernel + vm_compute; the hand-written model is tied to the code only by the differential check (320 sequential histories in Coq + 40 on pre-repair stores + 40 concurrent runs quick / 16000 thorough); datastore contract (durable single Put/Delete, key-ordered query); batches compared as pool ids, keys as sequence numbers; mutex linearisation of concurrent calls trusted; sequence-counter wrap-around not modelled.",
     },
 }
